@@ -61,6 +61,12 @@ def groups(tier, seed):
     for ti in range(0, len(templates(2)), 3):
         for card in (2, 3, 4):
             out.append({"part": "init", "nv": 2, "t": ti, "card": card})
+    # a node with two same-slice parents of different cardinalities: every source slice, edge insertion order and CPD parent order
+    for src in (0, 1):
+        for eo in (0, 1):
+            for po in (0, 1):
+                for cards in ([2, 3, 2], [3, 2, 3]):
+                    out.append({"part": "init2", "src": src, "edge_order": eo, "cpd_order": po, "cards": cards})
     return out
 
 
@@ -127,6 +133,8 @@ def run_group(g, tier):
     st = Stats()
     if g["part"] == "infer":
         _infer(st, g)
+    elif g["part"] == "init2":
+        _init2(st, g)
     else:
         _init(st, g)
     return st
@@ -137,6 +145,8 @@ def replay(case):
     g = case["g"]
     if g["part"] == "infer":
         _infer(st, g, only=(case["site"], case["q"], case["e"]))
+    elif g["part"] == "init2":
+        _init2(st, g)
     else:
         _init(st, g)
     return st.violations[:5]
@@ -225,6 +235,67 @@ def _infer(st, g, only=None):
                         st.outcome(tuple(round(x, 9) for x in exp))
     if len(st.samples) < 1:
         st.sample({"template": {"intra": intra, "inter": inter}, "T": T})
+
+
+def _init2(st, g):
+    """A -> X <- B inside one slice (cards differ): the CPD completed for the other slice must be the same FUNCTION of the
+    named parent states, whatever order the edges were inserted in and whatever order the given CPD lists its parents in"""
+    from pgmpy.factors.discrete import TabularCPD
+    from pgmpy.models import DynamicBayesianNetwork as DBN
+
+    ca, cb, cx = g["cards"]
+    s = g["src"]
+    dbn = DBN()
+    es = [(("A", 0), ("X", 0)), (("B", 0), ("X", 0))]
+    dbn.add_edges_from(es[::-1] if g["edge_order"] else es)
+    pa = [(("B", s), cb), (("A", s), ca)] if g["cpd_order"] else [(("A", s), ca), (("B", s), cb)]
+    ncol = ca * cb
+    raw = np.array([[1 + ((3 * i + 5 * j + i * j) % 7) for j in range(ncol)] for i in range(cx)], dtype=float)
+    vals = raw / raw.sum(axis=0, keepdims=True)
+    cX = TabularCPD(("X", s), cx, vals, evidence=[p for p, _ in pa], evidence_card=[c for _, c in pa])
+    cA = TabularCPD(("A", s), ca, [[1.0 / ca]] * ca)
+    cB = TabularCPD(("B", s), cb, [[(i + 1) / (cb * (cb + 1) / 2)] for i in range(cb)])
+    dbn.add_cpds(cA, cB, cX)
+    case = {"g": g, "site": "initialize_initial_state", "template": "A->X<-B", "q": None, "e": None}
+    st.states += 1
+    st.evals += 1
+    st.transitions += 1
+    st.nt(str(g))
+    try:
+        dbn.initialize_initial_state()
+        c1 = [c for c in dbn.get_cpds() if tuple(c.variable) == ("X", 1 - s)]
+        if len(c1) != 1:
+            st.violation("initialize_initial_state", "copied-cpd-differs", case, f"{len(c1)} CPDs for (X,{1 - s})", None)
+            return
+        f0, f1 = cX.to_factor(), c1[0].to_factor()
+        st.compared += 1
+        if {v[0] for v in f1.variables} != {"A", "B", "X"} or any(v[1] != 1 - s for v in f1.variables):
+            st.violation("initialize_initial_state", "copied-cpd-differs", case, [tuple(v) for v in f1.variables], "scope {A,B,X} in the other slice")
+            return
+        bad = None
+        for a in range(ca):
+            for b in range(cb):
+                for x in range(cx):
+                    asg = {"A": a, "B": b, "X": x}
+                    try:
+                        v1 = float(np.asarray(f1.values)[tuple(asg[v[0]] for v in f1.variables)])
+                    except IndexError:
+                        bad = f"copied CPD has cardinalities {[int(c) for c in f1.cardinality]} for {[tuple(v) for v in f1.variables]}"
+                        break
+                    v0 = float(np.asarray(f0.values)[tuple(asg[v[0]] for v in f0.variables)])
+                    if abs(v0 - v1) > 1e-12:
+                        bad = f"P(X={x} | A={a}, B={b}) = {v1} in the copy, {v0} in the given CPD"
+                        break
+                if bad:
+                    break
+            if bad:
+                break
+        if bad:
+            st.violation("initialize_initial_state", "copied-cpd-differs", case, None, bad)
+        else:
+            st.outcome(("init2", g["cpd_order"], g["edge_order"]))
+    except Exception as ex:
+        st.violation("initialize_initial_state", "exception", case, repr(ex)[:300], None)
 
 
 def _init(st, g):
